@@ -204,16 +204,20 @@ const ctlHelpers = `
 function N(v) { return typeof v === 'number' ? v : -1; }
 function TP(p) { p.constructor = Object; return p; }
 function TG(p, v) { Object.defineProperty(p, 'constructor', { get: function() { throw v; } }); return p; }
+function mkRes(s, fl, v, d) {
+  if (!(fl & 4)) return { value: v, done: d };
+  return { get done() { A(s, 0); return d; }, get value() { A(s, 1); return v; } };
+}
 function mkIt(s, n, fl) {
   var i = 0;
   var it = {
     next: function(v) {
       var d = P(s, v) % 4;
       if (d === 1) throw 1000 + s;
-      if (d === 2) return { value: undefined, done: true };
+      if (d === 2) return mkRes(s, fl, undefined, true);
       if (d === 3) return 5;
-      if (i < n) return { value: 10 * s + i++, done: false };
-      return { value: 77, done: true };
+      if (i < n) return mkRes(s, fl, 10 * s + i++, false);
+      return mkRes(s, fl, 77, true);
     }
   };
   it[Symbol.iterator] = function() { return this; };
@@ -221,13 +225,13 @@ function mkIt(s, n, fl) {
     var d = P(s + 1, v) % 4;
     if (d === 1) throw 1000 + s + 1;
     if (d === 2) return 5;
-    if (d === 3) return { value: 3, done: false };
-    return { value: N(v) + 100, done: true };
+    if (d === 3) return mkRes(s, fl, 3, false);
+    return mkRes(s, fl, N(v) + 100, true);
   };
   if (fl & 2) it.throw = function(v) {
     var d = P(s + 2, v) % 4;
-    if (d === 1) return { value: 7, done: false };
-    if (d === 2) return { value: 9, done: true };
+    if (d === 1) return mkRes(s, fl, 7, false);
+    if (d === 2) return mkRes(s, fl, 9, true);
     if (d === 3) return 5;
     throw v;
   };
